@@ -1,3 +1,336 @@
 package sim
 
-func proberMain() {}
+import (
+	"bufio"
+	"encoding/json"
+	"fmt"
+	"os"
+	"os/exec"
+	"runtime"
+	"runtime/debug"
+	"sort"
+	"strings"
+	"time"
+
+	"github.com/blugelabs/bluge"
+	"github.com/blugelabs/bluge/index"
+)
+
+// The recovery prober is a child process: the failures it looks for are not
+// Go panics (a use-after-unmap is SIGSEGV, a wild length a fatal
+// out-of-memory), so "the child died on this image" is itself the verdict.
+
+type WireDoc struct {
+	ID     string            `json:"id"`
+	UID    string            `json:"uid"`
+	Fields map[string][]byte `json:"f"`
+}
+
+type WireContent struct {
+	Count uint64              `json:"count"`
+	Docs  []WireDoc           `json:"docs"`
+	ByID  map[string][]string `json:"by_id"`
+}
+
+func (w *WireContent) Content() *Content {
+	c := &Content{Count: w.Count, ByID: w.ByID}
+	for _, d := range w.Docs {
+		do := DocOut{ID: d.ID, UID: d.UID, Fields: map[string]string{}}
+		for k, v := range d.Fields {
+			do.Fields[k] = string(v)
+		}
+		c.Docs = append(c.Docs, do)
+	}
+	sort.SliceStable(c.Docs, func(i, j int) bool { return c.Docs[i].UID < c.Docs[j].UID })
+	if c.ByID == nil {
+		c.ByID = map[string][]string{}
+	}
+	return c
+}
+
+func wireOf(c *Content) *WireContent {
+	w := &WireContent{Count: c.Count, ByID: c.ByID}
+	for _, d := range c.Docs {
+		wd := WireDoc{ID: d.ID, UID: d.UID, Fields: map[string][]byte{}}
+		for k, v := range d.Fields {
+			wd.Fields[k] = []byte(v)
+		}
+		w.Docs = append(w.Docs, wd)
+	}
+	return w
+}
+
+type ProbeReq struct {
+	Dir      string   `json:"dir"`
+	SegVer   int      `json:"seg_ver"`
+	MMap     bool     `json:"mmap"`
+	IDs      []string `json:"ids"`
+	Writer   bool     `json:"writer"`
+	ProbeDoc *DocSpec `json:"probe_doc,omitempty"`
+	Mem      bool     `json:"mem,omitempty"` // measure allocation during OpenReader
+}
+
+type ProbeResp struct {
+	ReaderErr  string       `json:"reader_err,omitempty"`
+	Content    *WireContent `json:"content,omitempty"`
+	ReadErr    string       `json:"read_err,omitempty"`
+	WriterErr  string       `json:"writer_err,omitempty"`
+	BatchErr   string       `json:"batch_err,omitempty"`
+	After      *WireContent `json:"after,omitempty"`
+	CloseErr   string       `json:"close_err,omitempty"`
+	Reopen     *WireContent `json:"reopen,omitempty"`
+	ReopenErr  string       `json:"reopen_err,omitempty"`
+	Panic      string       `json:"panic,omitempty"`
+	AllocBytes uint64       `json:"alloc_bytes,omitempty"`
+}
+
+func probeConfig(req *ProbeReq) bluge.Config {
+	cfg := bluge.DefaultConfigWithDirectory(func() index.Directory {
+		fsd := index.NewFileSystemDirectory(req.Dir)
+		if !req.MMap {
+			fsd.SetLoadMMapFunc(index.LoadMMapNever)
+		}
+		return fsd
+	})
+	if req.SegVer == 2 {
+		cfg = cfg.WithSegmentVersion(2)
+	}
+	return cfg
+}
+
+func probeOnce(req *ProbeReq) (resp *ProbeResp) {
+	resp = &ProbeResp{}
+	defer func() {
+		if p := recover(); p != nil {
+			resp.Panic = fmt.Sprintf("%v\n%s", p, debug.Stack())
+		}
+	}()
+	cfg := probeConfig(req)
+	var ms0, ms1 runtime.MemStats
+	if req.Mem {
+		runtime.ReadMemStats(&ms0)
+	}
+	rd, err := bluge.OpenReader(cfg)
+	if req.Mem {
+		runtime.ReadMemStats(&ms1)
+		resp.AllocBytes = ms1.TotalAlloc - ms0.TotalAlloc
+	}
+	if err != nil {
+		resp.ReaderErr = err.Error()
+	} else {
+		c, err := ReadAll(rd, req.IDs)
+		if err != nil {
+			resp.ReadErr = err.Error()
+		} else {
+			resp.Content = wireOf(c)
+		}
+		if err := rd.Close(); err != nil && resp.ReadErr == "" {
+			resp.ReadErr = "close: " + err.Error()
+		}
+	}
+	if !req.Writer {
+		return resp
+	}
+	w, err := bluge.OpenWriter(cfg)
+	if err != nil {
+		resp.WriterErr = err.Error()
+		return resp
+	}
+	settle := func() {
+		// let the free-running writer settle (persist swap, follow-up
+		// snapshot, merges), so that the outcome does not depend on how far
+		// the background loops got: all counters unchanged for 5 polls.
+		// Reads are done only on a settled writer: the bundled ice v2 format
+		// shares an unsynchronised stored-field buffer between a merge and a
+		// reader of the same segment (known finding, listed under C15/C04).
+		iw := w.VerifIndexWriter()
+		last, same := iw.Stats(), 0
+		for i := 0; i < 10000 && same < 5; i++ {
+			time.Sleep(300 * time.Microsecond)
+			st := iw.Stats()
+			if st == last && st.CurRootEpoch == st.LastPersistedEpoch {
+				same++
+			} else {
+				same = 0
+			}
+			last = st
+		}
+	}
+	if req.ProbeDoc != nil {
+		b := bluge.NewBatch()
+		b.Update(bluge.Identifier(req.ProbeDoc.ID), req.ProbeDoc.Bluge())
+		if err := w.Batch(b); err != nil {
+			resp.BatchErr = err.Error()
+		} else {
+			settle()
+			r2, err := w.Reader()
+			if err != nil {
+				resp.BatchErr = "reader after batch: " + err.Error()
+			} else {
+				c, err := ReadAll(r2, req.IDs)
+				if err != nil {
+					resp.BatchErr = "read after batch: " + err.Error()
+				} else {
+					resp.After = wireOf(c)
+				}
+				_ = r2.Close()
+			}
+		}
+	}
+	settle()
+	if err := w.Close(); err != nil {
+		resp.CloseErr = err.Error()
+	}
+	// the batch was acknowledged (safe mode): it must be there after reopening
+	r3, err := bluge.OpenReader(cfg)
+	if err != nil {
+		resp.ReopenErr = err.Error()
+	} else {
+		c, err := ReadAll(r3, req.IDs)
+		if err != nil {
+			resp.ReopenErr = "read: " + err.Error()
+		} else {
+			resp.Reopen = wireOf(c)
+		}
+		_ = r3.Close()
+	}
+	return resp
+}
+
+func proberMain() {
+	debug.SetGCPercent(200)
+	in := bufio.NewReaderSize(os.Stdin, 1<<20)
+	out := bufio.NewWriter(os.Stdout)
+	for {
+		line, err := in.ReadBytes('\n')
+		if len(line) > 1 {
+			var req ProbeReq
+			var resp *ProbeResp
+			if jerr := json.Unmarshal(line, &req); jerr != nil {
+				resp = &ProbeResp{Panic: "bad request: " + jerr.Error()}
+			} else {
+				resp = probeOnce(&req)
+			}
+			b, _ := json.Marshal(resp)
+			out.WriteString("@@ ")
+			out.Write(b)
+			out.WriteString("\n")
+			out.Flush()
+		}
+		if err != nil {
+			return
+		}
+	}
+}
+
+// ---- parent side -----------------------------------------------------------
+
+type Prober struct {
+	cmd    *exec.Cmd
+	in     *bufio.Writer
+	out    *bufio.Reader
+	stderr *strings.Builder
+	dead   bool
+	Probes int
+}
+
+var theProber *Prober
+
+func getProber() *Prober {
+	if theProber != nil && !theProber.dead {
+		return theProber
+	}
+	bin := os.Getenv("BSIM_BIN")
+	if bin == "" {
+		bin = os.Args[0]
+	}
+	// RLIMIT_AS through the shell: a wild allocation dies instead of
+	// swallowing the machine
+	c := exec.Command("/bin/sh", "-c", "ulimit -v 8000000; exec \"$0\" -test.run XXX", bin)
+	c.Env = append(os.Environ(), "BSIM_MODE=prober", "GOMAXPROCS=2")
+	ip, _ := c.StdinPipe()
+	op, _ := c.StdoutPipe()
+	sb := &strings.Builder{}
+	c.Stderr = &limitedWriter{sb: sb}
+	if err := c.Start(); err != nil {
+		panic("cannot start prober: " + err.Error())
+	}
+	theProber = &Prober{cmd: c, in: bufio.NewWriter(ip), out: bufio.NewReaderSize(op, 4<<20), stderr: sb}
+	return theProber
+}
+
+type limitedWriter struct{ sb *strings.Builder }
+
+func (l *limitedWriter) Write(p []byte) (int, error) {
+	if l.sb.Len() < 64<<10 {
+		l.sb.Write(p)
+	}
+	return len(p), nil
+}
+
+func stopProber() {
+	if theProber != nil && !theProber.dead {
+		theProber.dead = true
+		_ = theProber.cmd.Process.Kill()
+		_ = theProber.cmd.Wait()
+	}
+}
+
+// Probe sends one request. died reports that the child died (its stderr tail
+// is returned in msg).
+func (p *Prober) Probe(req *ProbeReq) (resp *ProbeResp, died bool, msg string) {
+	b, _ := json.Marshal(req)
+	p.in.Write(b)
+	p.in.WriteString("\n")
+	if err := p.in.Flush(); err != nil {
+		p.dead = true
+		_ = p.cmd.Wait()
+		return nil, true, p.stderr.String()
+	}
+	p.Probes++
+	type rd struct {
+		r   *ProbeResp
+		err error
+	}
+	ch := make(chan rd, 1)
+	go func() {
+		for {
+			line, err := p.out.ReadString('\n')
+			if strings.HasPrefix(line, "@@ ") {
+				var r ProbeResp
+				if jerr := json.Unmarshal([]byte(line[3:]), &r); jerr != nil {
+					ch <- rd{nil, jerr}
+				} else {
+					ch <- rd{&r, nil}
+				}
+				return
+			}
+			if err != nil {
+				ch <- rd{nil, err}
+				return
+			}
+		}
+	}()
+	select {
+	case x := <-ch:
+		if x.err != nil {
+			p.dead = true
+			_ = p.cmd.Process.Kill()
+			_ = p.cmd.Wait()
+			return nil, true, tailStr(p.stderr.String(), 3000)
+		}
+		return x.r, false, ""
+	case <-time.After(60 * time.Second):
+		p.dead = true
+		_ = p.cmd.Process.Kill()
+		_ = p.cmd.Wait()
+		return nil, true, "prober did not answer within 60 s (hang while opening the image)\n" + tailStr(p.stderr.String(), 3000)
+	}
+}
+
+func tailStr(s string, n int) string {
+	if len(s) > n {
+		return s[len(s)-n:]
+	}
+	return s
+}
